@@ -41,6 +41,8 @@ pub enum Delivery {
     /// the latest genuine message with an (unauthenticated) `status` member ADDED next to its data: 10, 11 or 20.
     /// The data is what counts; the status of a message that carries data changes nothing.
     LatestWithStatus(u8),
+    /// any other delivery with a `status` member (10, 11, 20) added next to its data
+    WithStatus(Box<Delivery>, u8),
     /// a harness-made ciphertext under the ALL-ZERO key with the next counter (no party ever holds that key)
     CraftedZeroKey,
     /// to the device: a map whose member names are BYTE strings spelling the DeviceRequest names: CBOR, not a DeviceRequest
@@ -80,6 +82,8 @@ pub struct World {
     pub req_specs: Vec<BTreeMap<String, Vec<String>>>,
     pub last_items: RequestedItems,
     pub max_ctr: u32,
+    /// the response the device held ready at the end of the previous operation
+    pub ready_seen: Option<Vec<u8>>,
     pub emissions: Vec<Value>, // observed (role, iv) in order
     pub crafted: u64,
     /// every byte-level output of the library calls made so far (for byte-for-byte comparisons)
@@ -166,6 +170,7 @@ impl World {
             req_specs: specs,
             last_items: e.first_outcome.items_request.clone(),
             max_ctr: 2,
+            ready_seen: None,
             emissions: vec![],
             crafted: 0,
             raw: vec![],
@@ -197,6 +202,7 @@ impl World {
             req_specs: self.req_specs.clone(),
             last_items: self.last_items.clone(),
             max_ctr: self.max_ctr,
+            ready_seen: self.ready_seen.clone(),
             emissions: self.emissions.clone(),
             crafted: self.crafted,
             raw: self.raw.clone(),
@@ -261,6 +267,13 @@ impl World {
                 },
                 None => garbage,
             },
+            Delivery::WithStatus(inner, k) => {
+                let (b, sym) = self.deliver(inner, to_device, rng);
+                match data_of(&b) {
+                    Some(data) => (session_data(Some(&data), Some([10u64, 11, 20][*k as usize % 3])), sym),
+                    None => (b, sym),
+                }
+            }
             Delivery::CraftedZeroKey => {
                 let recv_ctr = if to_device { keys.reader_ctr } else { rdr_view(&self.rdr).device_ctr };
                 let iv = iso_iv(!to_device, recv_ctr as u32 + 1);
@@ -515,14 +528,19 @@ impl World {
             }
         };
         // a response that became ready during this call is an emission of the device
+        // (judged by the state the previous operation left, NOT by the bytes: a response byte-identical to an earlier one is
+        // still a second message — it is what a device whose counter went backwards produces for a repeated request)
         if let (_, StateView::Ready(b)) = dev_view(&self.dev) {
-            if !self.responses.iter().any(|m| m.bytes == b) {
+            if self.ready_seen.as_ref() != Some(&b) {
                 let sym = match data_of(&b) {
                     Some(data) => self.abstract_emitted(&data, true, None),
                     None => arr(vec![uint(1)]),
                 };
-                self.responses.push(Msg { bytes: b, sym });
+                self.responses.push(Msg { bytes: b.clone(), sym });
             }
+            self.ready_seen = Some(b);
+        } else {
+            self.ready_seen = None;
         }
         let ems: Vec<Value> = self.emissions[em_before..]
             .iter()
